@@ -862,6 +862,7 @@ def to_coq_system(case, obs):
         return f"match mk_allocation {gq(case['aeps'])} {ac.gcells(case['cells'])} with None => true | Some _ => false end"
     call = gen_call(case["eps"], case["t"], case["die"], case["mods"], obs["areas"], obs["pow32"], obs["cells"],
                     case.get("edges", []))
+    bump("systems_" + obs["status"])
     if obs["status"] == "raised":
         return f"raises_cmp {call}"
     can = canonical(obs["cap"])
@@ -977,8 +978,10 @@ def oracle_system(case, obs):
     if has_clash(case):
         return None          # the open finding C10/fake-name-clash (concrete failing input: corpus/C10/fake-name-clash-fixed)
     gaps, loose = occupancy_gaps(case, obs, can)
+    bump("systems_checked_for_unbounded_cells")
     if not gaps and not loose:
         return None
+    bump("systems_probed_with_the_solver")
     res = probe_system(case, gaps, loose)
     return res
 
@@ -1050,7 +1053,42 @@ def probe_system(case, gaps, loose, max_cells=3):
 # ======================================================================================
 # kind "run": the system of every optimisation inside a real glbfloor run
 # ======================================================================================
-RUN_SYSTEM_LIMIT = 260          # (entries of `modules`) x (cells) up to which the recorded system is compared in Coq
+RUN_SYSTEM_LIMIT = 400          # (entries of `modules`) x (cells) up to which the recorded system is compared in Coq
+STATS = {}
+
+
+def bump(key, n=1):
+    STATS[key] = STATS.get(key, 0) + n
+
+
+def float_tie(it):
+    """Inside a run the rectangles of a movable hard module sit, from the second optimisation on, at the solver's
+    coordinates: get_a = area_overlap / area is then computed with roundings.  If such a ratio is within 2^-40 of the
+    threshold or of 1 - threshold the strict comparisons of the freezing rule depend on those roundings, which the
+    exact model cannot follow: the structural comparisons of that optimisation are skipped (exact-stream rule;
+    counted in the evidence).  Ratios computed from small dyadic coordinates, and stored ratios, are exact: ties
+    among them ARE compared."""
+    from harness.props import c10
+    from harness.props import alloc_common as ac
+    t = core.frac(float(it["t"]))
+    lim = F(1, 2 ** 40)
+
+    def small(q):
+        q = core.frac(q)
+        return q.denominator <= 2 ** 12
+
+    for m in it["mods_before"]:
+        rects = m["rects"] if (m["hard"] and not m["fixed"]) else (m["rects"] if len(m["rects"]) == 1 else [])
+        for r in rects:
+            r_small = all(small(r[k]) for k in ("cx", "cy", "w", "h"))
+            for c in it["in_cells"]:
+                cr = c["rect"]
+                if r_small and all(small(cr[k]) for k in ("cx", "cy", "w", "h")):
+                    continue
+                q = ac.ovl(c10.rbox(cr), c10.rbox(r)) / c10.rarea(cr)
+                if abs(q - t) < lim or abs(q - (1 - t)) < lim:
+                    return True
+    return False
 
 
 def run_system_expr(it, clash=False):
@@ -1058,7 +1096,9 @@ def run_system_expr(it, clash=False):
     ncells = len(it["in_cells"])
     nprob = sum(len(m["rects"]) if (m["hard"] and not m["fixed"]) else 1 for m in mods)
     if nprob * ncells > RUN_SYSTEM_LIMIT:
+        bump("run_systems_skipped_for_size")
         return None
+    bump("run_systems_compared")
     can = canonical(it["cap"])
     call = gen_call(it["eps"], it["t"], None, mods, it["areas"], it["pow32"], it["in_cells"], it["edges"],
                     gdie_text=fr.grect(it["die_rect"]))
@@ -1086,7 +1126,9 @@ def oracle_run_systems(case, obs):
             continue
         names = [m["name"] for m in it["mods_before"]]
         gaps, loose = occupancy_gaps_of(names, len(it["in_cells"]), it["cap"], can)
+        bump("run_systems_checked_for_unbounded_cells")
         if gaps or loose:
+            bump("run_systems_probed_with_the_solver")
             return probe_run(case, k, gaps, loose)
     return None
 
@@ -1190,7 +1232,9 @@ def gen_run_tie(rng):
     soft_names = rng.choice([["S1", "S2", "S3"], ["H1_io", "H1_x", "S1"], ["a", "a_b", "a_b_0"]])
     for i in range(k):
         bx = rng.randrange(nblocks)
-        modules[soft_names[i]] = {"area": 1.0 if H == 2 else rng.choice([1.0, 0.5]), "center": [2.0 * bx + 1.0, H / 2]}
+        # areas with a dyadic square root (the netlist turns a soft module into a square of side sqrt(area); an
+        # irrational side would put the ratio one rounding away from the tie, which exact arithmetic cannot follow)
+        modules[soft_names[i]] = {"area": 1.0 if H == 2 else rng.choice([1.0, 0.25]), "center": [2.0 * bx + 1.0, H / 2]}
         names.append(soft_names[i])
     if rng.random() < 0.3 and H == 2:
         modules["H1"] = {"hard": True, "rectangles": [[0.5, 0.5, 1.0, 1.0]]}
@@ -1207,6 +1251,8 @@ def gen_run_tie(rng):
     case = {"kind": "run", "die": {"width": float(W), "height": float(H), "regions": []},
             "netlist": {"Modules": {n: modules[n] for n in order}, "Nets": nets},
             "init": init, "t": t, "alpha": alpha, "max_iter": rng.choice([1, 1, 2]), "style": "tie"}
+    if "H1" in modules:
+        case["max_iter"] = 1      # after the first optimisation H1 sits at the solver's coordinates (see float_tie)
     if t == 1.0 and alpha == 1.0 and rng.random() < 0.5:
         case.update(t=1, alpha=1, raw=True)          # the parameters as Python ints
     return case
